@@ -27,7 +27,11 @@ ASSUMPTIONS = ["reference Kruskal formula (np.einsum) in mc/refmodel.py",
                "factor matrices hold small integers, weights in {2,-1,0,1}: values/sums/integer multiples are exact",
                "objects are observed through .weights/.factor_matrices only",
                "tolerance 1e-12*scale (scale = max entry of the Kruskal value of |w|,|U|) where roots/norms are taken",
-               "fixsigns(other): reference tensors have at most as many components as the receiver",
+               "fixsigns(other): reference tensors have at most as many components as the receiver; alignment (at most one "
+               "anti-correlated mode left per component) is asserted only for components whose normalised weight is non-zero",
+               "after normalize/arrange the weights are compared with |w_r| * prod_n ||u_n,r|| (0 for a component with a zero "
+               "column), which pins the component order when no sorting is requested",
+               "extract(): the empty selection is not enumerated (the library rejects it by design, upstream tests pin that)",
                "score: the returned flag is not asserted (its polarity is pinned by the upstream functional tests)"]
 BOUNDS = {
     "quick": "shapes order<=3,size<=3,cells<=12 (N>=1) + five 4-way shapes; ranks 1-3; all weight patterns "
